@@ -114,13 +114,22 @@ func c01Check(s script, tr *trace) (*hx.Dev, c01Stats) {
 		if !a.Returned {
 			return bad("api-blocked", "%s(%s) issued in burst %d did not return within its bound", a.Name, a.Peer, a.Burst)
 		}
-		// until when does the stop hold? a later add of the same peer
+		// until when does the stop hold? a later add of the same peer; an add
+		// that overlaps the DeletePeer call is unordered with it: no claim
 		until := int64(1) << 62
 		if a.Name == "del" {
-			for _, b := range tr.API[i+1:] {
-				if b.Name == "add" && b.Peer == a.Peer {
+			for j, b := range tr.API {
+				if j == i || b.Name != "add" || b.Peer != a.Peer {
+					continue
+				}
+				bRet := b.RetSeq
+				if !b.Returned {
+					bRet = int64(1) << 62
+				}
+				if b.CallSeq < a.RetSeq && bRet > a.CallSeq {
+					until = a.RetSeq // overlapping
+				} else if b.CallSeq > a.RetSeq && b.CallSeq < until {
 					until = b.CallSeq
-					break
 				}
 			}
 		}
@@ -129,7 +138,14 @@ func c01Check(s script, tr *trace) (*hx.Dev, c01Stats) {
 				continue
 			}
 			for k, es := range p.estSeq {
-				if es < a.RetSeq {
+				// sessions Established before the call began (a session that comes
+				// up during a DeletePeer overlapping an AddPeer may belong to the new
+				// registration)
+				lim := a.RetSeq
+				if until == a.RetSeq {
+					lim = a.CallSeq
+				}
+				if es < lim {
 					if es < a.CallSeq && (p.closeSeq[k] == 0 || p.closeSeq[k] > a.CallSeq) {
 						st.stopInSess = true
 					}
